@@ -696,6 +696,13 @@ func (o *nonceOracle) Leg(c *explore.Ctx, leg *world.Leg) {
 			c.Report(p, "create", "returned-nonce", fmt.Sprintf("ESDTNFTCreate of %q returned %x, expected highest issued (%d) + 1", tok, leg.Out.ReturnData, want-1))
 			return
 		}
+		// the same through the library's own accessors of the returned value
+		if v, err := leg.Out.GetFirstReturnData(vmcommon.AsBigInt); err != nil || v == nil || v.(*big.Int).Cmp(new(big.Int).SetUint64(want)) != 0 {
+			c.Report(p, "create", "returned-nonce:as-big-int", fmt.Sprintf("ESDTNFTCreate of %q: GetFirstReturnData(AsBigInt) gives %v (%v), the nonce issued is %d", tok, v, err, want))
+		}
+		if v, err := leg.Out.GetFirstReturnData(vmcommon.AsBigIntString); err != nil || v == nil || v.(string) != new(big.Int).SetUint64(want).String() {
+			c.Report(p, "create", "returned-nonce:as-big-int-string", fmt.Sprintf("ESDTNFTCreate of %q: GetFirstReturnData(AsBigIntString) gives %v (%v), the nonce issued is %d", tok, v, err, want))
+		}
 		suffix := tok + spec.NonceSuffix(want)
 		// the key must be fresh in the whole world and the in-flight pool
 		for _, s := range leg.Pre.Shards {
